@@ -12,12 +12,13 @@ from fractions import Fraction
 
 from ..cfg import forward_states
 from ..model import AnalysisError, FuncInfo, dotted, norm_text, walk_no_nested
-from ..rules.ratfunc import (PI, RF, Radicals, TermEval, decide_equal, reduce_radicals,
-                             resolve_property_chain, sign_on_positive_orthant)
+from ..rules.ratfunc import (PI, RF, Radicals, TermEval, decide_equal, linear_in, reduce_radicals,
+                             resolve_property_chain, sign_on_positive_orthant, subst_rf)
 
 MOD = "abtem.core.energy"
 U = "ase.units."
 ELEM = "⟨elem⟩"
+LAM = "λ"
 
 
 def _ase_constants(te: TermEval, canon: str):
@@ -224,6 +225,17 @@ def run(ctx) -> None:
     ctx.rule("R-ANGULAR", "every computed angular sampling is element i = (reciprocal sampling)[i] · λ · 10³ with λ "
              "the value of energy2wavelength (directly, or through the wavelength property chain that ends in "
              "energy2wavelength); all elements use the same λ and the element index equals its position")
+    ctx.rule("R-ANGULAR-LINEAR", "every computed angular-sampling element is (its reciprocal-sampling component) × (a "
+             "factor that does not depend on the sampling): 'reciprocal sampling times wavelength' is linear, f(2d) = "
+             "2·f(d). Decided on normal forms: rational functions and square roots by the homogeneity identity, a term "
+             "in which one elementary transcendental function of the sampling (arctan, tan, sin ...) survives is not "
+             "linear because that function is transcendental over the rational functions")
+    ctx.rule("R-ANGULAR-SIBLING", "sibling agreement of the conversions reciprocal sampling -> mrad found in the code "
+             "(the helper reciprocal_space_sampling_to_angular_sampling and every computed `angular_sampling` "
+             "property, each with its wavelength traced to energy2wavelength): after renaming the sampling component "
+             "and the wavelength to common symbols the conversion factors have one and the same normal form; a site "
+             "that converts differently from the others makes the library report two different angles for the same "
+             "reciprocal sampling, so at most one of them can equal sampling × wavelength × 10³")
     ctx.assume("ase.units: eV = Å = 1, m = 1e10, kg = 1/_amu, J = C = 1/_e, s = 1e10·sqrt(_e/_amu) (structural "
                "definitions in ase.units.create_units, independent of the CODATA version); all physical constants "
                "are positive")
@@ -244,7 +256,10 @@ def run(ctx) -> None:
         ctx.require(len(f.positional_params) >= 1, f"{f.qualname} lost its energy parameter")
         p = f.positional_params[0]
         code = te.eval_function(f, {p: E})
-        stray = {a for a in reduce_radicals(code * code, rad).atoms() if not rad.is_radical(a)} - allowed_atoms
+        sq = reduce_radicals(code * code, rad)
+        stray = {a for a in sq.atoms() if not rad.is_radical(a) and not rad.is_function(a)} - allowed_atoms
+        for fa in rad.function_atoms(sq, deep=False):  # a function atom is judged by the comparison, its leaves here
+            stray |= rad.deep_atoms(RF.atom(fa)) - allowed_atoms
         if stray:
             raise AnalysisError(f"{f.qualname}: the returned term contains atoms outside the formula language: "
                                 f"{sorted(stray)}")
@@ -293,20 +308,43 @@ def run(ctx) -> None:
     ret = te2.single_return(helper)
     fr = te2.frame(helper)
     kind = _vector(te2, fr, ret.value, fr.df.cfg.node_of(ret).idx)
-    lam_atom = RF.atom(f"{e2w.qualname}({e2w.positional_params[0]}={ep})")
+    lam_name = f"{e2w.qualname}({e2w.positional_params[0]}={ep})"
+    lam_atom = RF.atom(lam_name)
     thousand = RF.const(1000)
+    sites: list = []  # (construct, where, [conversion factor in the common symbols ELEM, LAM per element])
+
+    def linear(construct: str, where: str, el: RF, comp: str, label: str, key: str) -> None:
+        res = linear_in(el, comp, rad)
+        if res == "undecided":
+            raise AnalysisError(f"{construct}: cannot decide whether {rad.describe(el)[:160]} is linear in {comp}")
+        ctx.check(res == "linear", "R-ANGULAR-LINEAR", f"{construct}:{label}", where,
+                  f"{label} = {comp} × (factor independent of the sampling): doubling the reciprocal sampling doubles "
+                  "the angular sampling",
+                  f"{label} is {rad.describe(reduce_radicals(el, rad))[:200]}, which is not a multiple of {comp}: "
+                  "the angular sampling is not proportional to the reciprocal sampling (f(2d) != 2 f(d))",
+                  key_detail=key)
+
+    def factor(el: RF, comp: str, lam: str) -> RF:
+        return reduce_radicals(subst_rf(el, {comp: RF.atom(ELEM), lam: RF.atom(LAM)}, rad) / RF.atom(ELEM), rad)
+
     if kind[0] == "map":
         _, src, body = kind
         ctx.check(src.single_atom() == sp, "R-ANGULAR", f"{helper.qualname}:source", helper.loc(ret),
                   f"maps over `{sp}`", f"the result maps over {src.key()}, not over the sampling argument `{sp}`",
                   key_detail="source")
+        linear(helper.qualname, helper.loc(ret), body, ELEM, "element", "linear")
+        sites.append((helper.qualname, helper.loc(ret), [factor(body, ELEM, lam_name)]))
         _verdict(ctx, "R-ANGULAR", f"{helper.qualname}:element", helper.loc(ret), body,
                  RF.atom(ELEM) * lam_atom * thousand, rad, "element", "d·λ(energy)·10³", "element")
     elif kind[0] == "tuple":
+        fs = []
         for i, el in enumerate(kind[1]):
+            linear(helper.qualname, helper.loc(ret), el, f"{sp}[{i}]", f"element[{i}]", f"linear{i}")
+            fs.append(factor(el, f"{sp}[{i}]", lam_name))
             _verdict(ctx, "R-ANGULAR", f"{helper.qualname}:element[{i}]", helper.loc(ret), el,
                      RF.atom(f"{sp}[{i}]") * lam_atom * thousand, rad, f"element {i}", f"{sp}[{i}]·λ(energy)·10³",
                      f"element{i}")
+        sites.append((helper.qualname, helper.loc(ret), fs))
     else:
         raise AnalysisError(f"{helper.qualname}: result is not a recognised vector term")
 
@@ -354,7 +392,7 @@ def run(ctx) -> None:
             elems = kind[1]
             # base B and wavelength term L from element 0
             first = reduce_radicals(elems[0], rad)
-            idx0 = [a for a in first.atoms() if a.endswith("[0]")]
+            idx0 = sorted(a for a in rad.deep_atoms(first) if a.endswith("[0]"))
             if len(idx0) != 1:
                 raise AnalysisError(f"{g.qualname}: cannot find the sampling factor of element 0 in {first.key()}")
             base = idx0[0][:-3]
@@ -363,7 +401,14 @@ def run(ctx) -> None:
             raise AnalysisError(f"{g.qualname}: result is not a tuple of products")
         L = first / (RF.atom(factor_atoms[0]) * thousand)
         la = L.single_atom()
-        lam_ok, lam_txt = False, L.key()
+        if la is None or rad.is_function(la) or rad.is_radical(la):
+            # the element is not <component>·<one atom>·10³ (the wavelength sits inside a function, a quotient ...):
+            # the only other leaf of the term is the wavelength candidate, the element comparison below decides
+            others = rad.deep_atoms(first) - {factor_atoms[0], PI}
+            if len(others) == 1:
+                la = next(iter(others))
+                L = RF.atom(la)
+        lam_ok, lam_txt = False, rad.describe(L)
         if la is not None and la.startswith(e2w.qualname + "("):
             lam_ok, lam_txt = True, la
         elif la is not None and la.startswith("self."):
@@ -381,11 +426,49 @@ def run(ctx) -> None:
                   f"element 0 is {base}[0]·10³·({lam_txt}); the remaining factor is not the value of "
                   f"energy2wavelength", key_detail="lambda")
         if lam_ok:
+            fs = []
+            for i, el in enumerate(elems):
+                lab = f"element[{i}]" if kind[0] == "tuple" else "element"
+                linear(g.qualname, g.loc(ret), el, factor_atoms[i], lab, f"linear{i}")
+                fs.append(factor(el, factor_atoms[i], la))
+            sites.append((g.qualname, g.loc(ret), fs))
             for i, el in enumerate(elems):
                 _verdict(ctx, "R-ANGULAR", f"{g.qualname}:element[{i}]", g.loc(ret), el,
                          RF.atom(factor_atoms[i]) * L * thousand, rad, f"element {i}",
                          f"{base}[{i if kind[0] == 'tuple' else 'i'}]·λ·10³", f"element{i}")
     ctx.require(n_methods >= 2, f"only {n_methods} angular_sampling properties could be analysed")
+
+    # ---------------- R-ANGULAR-SIBLING: one conversion factor at every site
+    groups: list = []  # [representative factor, [(construct, where)]]
+    for construct, where, fs in sites:
+        distinct: list = []
+        for f_ in fs:
+            if not any(f_.equals(d_) for d_ in distinct):
+                distinct.append(f_)
+        for f_ in distinct:
+            for grp in groups:
+                if grp[0].equals(f_):
+                    grp[1].append((construct, where))
+                    break
+            else:
+                groups.append([f_, [(construct, where)]])
+    ctx.require(len(sites) >= 3, f"only {len(sites)} conversions reciprocal sampling -> mrad could be compared")
+    groups.sort(key=lambda grp: -len(grp[1]))
+    agreed = groups[0] if len(groups) == 1 or len(groups[0][1]) > len(groups[1][1]) else None
+    for rep, members in groups:
+        for construct, where in members:
+            if agreed is not None and rep is agreed[0]:
+                ctx.ok("R-ANGULAR-SIBLING", f"{construct}:factor", where,
+                       f"converts with the factor {rad.describe(rep)[:80]}, like "
+                       f"{len(agreed[1]) - 1} other conversion(s)")
+            else:
+                common = (f"{rad.describe(agreed[0])[:80]} used by " + ", ".join(c_ for c_, _ in agreed[1])
+                          if agreed is not None else "the other sites (no common form: " +
+                          "; ".join(rad.describe(r_)[:60] for r_, _ in groups) + ")")
+                ctx.violation("R-ANGULAR-SIBLING", f"{construct}:factor", where,
+                              f"converts reciprocal sampling to mrad with the factor {rad.describe(rep)[:160]} "
+                              f"(per unit of sampling), not with {common}: the same reciprocal sampling gives "
+                              "different angles depending on which conversion is used", key_detail="sibling")
     # the wavelength used by Accelerator (end of every wavelength property chain)
     acc = repo.method(MOD, "Accelerator", "wavelength")
     rexpr = te.single_return(acc).value
